@@ -18,8 +18,8 @@ import json, os, signal, sqlite3, subprocess, sys
 from pony.orm import Database, Required, db_session, select, commit, flush
 from pony.orm.dbapiprovider import Pool
 from pony.orm.dbproviders.sqlite import SQLitePool
-try: import ponyutil
-except ImportError: ponyutil = None      # helper mode
+sys.path.insert(0, os.path.dirname(os.path.dirname(os.path.abspath(__file__))))
+import ponyutil
 
 MARK = 'select 1'
 ROOT_PID = os.getpid()
@@ -61,6 +61,32 @@ class TrackCon(sqlite3.Connection):
     def close(self):
         P.log.append(['close', canon(self)]); return super().close()
 
+# ---- OraPool: the real class over a fake cx_Oracle.SessionPool (no Oracle client/server here) that stamps the creating pid
+
+class FakeSessionPool(object):
+    def __init__(self, **kwargs):
+        if P.fail == 'connect':
+            P.fail = None; raise RuntimeError('injected: SessionPool cannot be created')
+        self.tag = (os.getpid(), P.created); P.created += 1
+    def acquire(self):
+        if P.fail == 'connect':
+            P.fail = None; raise RuntimeError('injected: acquire fails')
+        return FakeOraConn(self)
+    def release(self, con): P.log.append(['release', canon(con.pool), canon(self)])
+    def drop(self, con): P.log.append(['release', canon(con.pool), canon(self)])
+
+class FakeOraConn(object):
+    def __init__(self, pool): self.pool = pool; self.tag = pool.tag
+    def execute(self, sql): P.log.append(['stmt', canon(self.pool)])
+
+def make_ora_pool():
+    ponyutil.add_stubs()
+    import cx_Oracle
+    from pony.orm.dbproviders import oracle
+    cx_Oracle.SessionPool = FakeSessionPool
+    oracle.OraPool.forked_pools[:] = []
+    return oracle.OraPool(user='u', password='p', dsn='d')
+
 def make_pool(kind, path):
     if kind == 'base': return Pool(sqlite3, path, factory=TrackCon)
     if kind == 'sqliteFile': return SQLitePool(False, path, True, factory=TrackCon)
@@ -81,7 +107,8 @@ def interp(kind, events, path):
     """run the script on the real pool; returns {logical pid: report} for the whole process tree"""
     Pool.forked_connections[:] = []
     p_reset()
-    pool = make_pool(kind, path)
+    ora = kind == 'oracle'
+    pool = make_ora_pool() if ora else make_pool(kind, path)
     held = None; obs = []; reports = {}; child_fd = None; nextpid = 1
     try:
         for ev in events:
@@ -109,7 +136,7 @@ def interp(kind, events, path):
                     try: con, is_new = pool.connect()
                     finally: P.fail = None
                     held = con
-                    obs.append([act, canon(con), bool(is_new)])
+                    obs.append([act, canon(con.pool) if ora else canon(con), bool(is_new)])
                 elif act == 'stmt':
                     try:
                         if held is not None: held.execute(MARK)
@@ -128,7 +155,11 @@ def interp(kind, events, path):
             except Exception as e:
                 obs.append([act, type(e).__name__])
         pid_attr = hasattr(pool, 'pid')
-        reports[str(P.me)] = {
+        if ora:
+            reports[str(P.me)] = {'obs': obs, 'cx': canon(pool.cx_pool), 'poolpid': P.realmap.get(pool.pid, 'pid?'),
+                                  'forked': [[canon(c), P.realmap.get(p, 'pid?')] for c, p in pool.forked_pools],
+                                  'held': canon(held.pool) if held is not None else None, 'log': P.log}
+        else: reports[str(P.me)] = {
             'obs': obs, 'con': canon(pool.con), 'pidAttr': pid_attr,
             'poolpid': (P.realmap.get(pool.pid, 'pid?') if pool.pid is not None else None) if pid_attr else None,
             'forked': [[canon(c), P.realmap.get(p, 'pid?') if p is not None else None] for c, p in pool.forked_connections],
@@ -283,6 +314,83 @@ def pool_tie(ctx, work):
             ctx.violation('Pool.connect returned to a process a connection created by another process (its parent)', {'kind': kind, 'events': small, 'process': p},
                           observed=o, expected='a connection created by process ' + p, key='pool-connect-foreign:%s:%s' % (kind, json.dumps(small)))
     Pool.forked_connections[:] = []
+
+# ---- OraPool tie
+
+def ora_model_reports(events, out):
+    pools = {}
+    def see(p): pools.setdefault(p[1], set()).add(p[0])
+    for q in out['procs']:
+        see(q['cx'])
+        for p, _ in q['forked']: see(p)
+        if q['held']: see(q['held']['pool'])
+    for o in out['outs']:
+        for x in o:
+            if x['returned']: see(x['returned']['pool'])
+    rank = {(s_, c): [c, i] for c, ss in pools.items() for i, s_ in enumerate(sorted(ss))}
+    cn = lambda p: rank[(p[0], p[1])]
+    reps = {str(q['pid']): {'obs': [], 'cx': cn(q['cx']), 'poolpid': q['poolpid'], 'forked': [[cn(p), pid] for p, pid in q['forked']],
+                            'held': cn(q['held']['pool']) if q['held'] else None, 'log': []} for q in out['procs']}
+    for ev, o in zip(events, out['outs']):
+        if ev[0] == 'fork' or not o: continue
+        _, actor, act = ev; o = o[0]; r = reps[str(actor)]
+        if act.startswith('connect'):
+            r['obs'].append([act, 'AssertionError'] if o['assertError'] else [act, 'RuntimeError'] if o['failed'] else [act, cn(o['returned']['pool']), True])
+        else: r['obs'].append([act, 'ok'])
+        for c in o['stmts']: r['log'].append(['stmt', cn(c['pool'])])
+        for c, via in o['released']: r['log'].append(['release', cn(c['pool']), cn(via)])
+    return reps
+
+def random_ora_script(rng, maxlen):
+    n_procs = 1; held = {0: False}; evs = []
+    for _ in range(rng.randint(2, maxlen)):
+        p = rng.randrange(n_procs)
+        if rng.random() < 0.2 and n_procs < 4:
+            evs.append(['fork', p]); held[n_procs] = held[p]; n_procs += 1; continue
+        if rng.random() < 0.8: act = rng.choice(['stmt', 'release', 'release', 'drop']) if held[p] else rng.choice(['connect', 'connect', 'connect', 'connectFail', 'disconnect'])
+        else: act = rng.choice(['connect', 'connectFail', 'stmt', 'release', 'drop', 'disconnect'])
+        evs.append(['act', p, act])
+        if act == 'connect': held[p] = True
+        elif act in ('release', 'drop'): held[p] = False
+    return evs
+
+ORA_FIXED = [
+    [['act', 0, 'connect'], ['act', 0, 'release'], ['fork', 0], ['act', 1, 'connect'], ['act', 1, 'stmt'], ['act', 1, 'release'], ['act', 0, 'connect'], ['act', 0, 'stmt'], ['act', 0, 'release']],
+    [['fork', 0], ['act', 1, 'connectFail'], ['act', 1, 'connect'], ['act', 1, 'release'], ['act', 0, 'connectFail'], ['act', 0, 'connect']],
+    [['act', 0, 'connect'], ['fork', 0], ['act', 1, 'stmt'], ['act', 1, 'release'], ['act', 1, 'connect'], ['fork', 1], ['act', 2, 'connect'], ['act', 2, 'drop'], ['act', 0, 'release']],
+]
+ORA_MINIMAL = [[['fork', 0], ['act', 1, 'connect']], [['fork', 0], ['act', 1, 'connectFail'], ['act', 1, 'connect']]]
+
+def ora_tie(ctx, work):
+    if not ctx.driver.ok:
+        ctx.note('driver unavailable: OraPool tie skipped'); return
+    rng = ctx.rng
+    scripts = list(ORA_FIXED) + ORA_MINIMAL + [random_ora_script(rng, 12) for _ in range(ctx.scale(6, 120))]
+    outs = ctx.driver('C36', [{'op': 'ora', 'events': s} for s in scripts])
+    hp = subprocess.run([sys.executable, os.path.abspath(__file__), '--helper', work], input=json.dumps([['oracle', s] for s in scripts]),
+                        stdout=subprocess.PIPE, stderr=subprocess.PIPE, text=True, timeout=3000)
+    try: reals = json.loads(hp.stdout)
+    except ValueError: raise RuntimeError('C36 helper (oracle) failed: ' + hp.stderr[-500:])
+    reported = False
+    for script, out, real in zip(scripts, outs, reals):
+        ctx.case(['ora-tie', script], nontrivial=any(e[0] == 'fork' for e in script), kind='tie:pool-script:oracle')
+        if 'driver_error' in out:
+            ctx.divergence('driver rejected the OraPool script', script, model=out, impl=None); continue
+        reps = ora_model_reports(script, out)
+        if any(q['forked'] for q in out['procs']): ctx.count('tie:ora:parked-inherited-session-pool')
+        if any(x['failed'] for o in out['outs'] for x in o): ctx.count('tie:ora:connect-failed')
+        if real != reps:
+            bad = sorted(k for k in set(real) | set(reps) if real.get(k) != reps.get(k))
+            ctx.divergence('OraPool model and the real OraPool (over a fake cx_Oracle.SessionPool) under os.fork() disagree', {'events': script, 'process': bad[0]},
+                           model=reps.get(bad[0]), impl=real.get(bad[0]))
+        fc = foreign_connect(real)
+        if fc and not reported:
+            reported = True
+            small = next((m for m in ORA_MINIMAL if foreign_connect(interp('oracle', m, None))), script)
+            p, o = foreign_connect(interp('oracle', small, None))
+            ctx.violation('OraPool.connect handed a process a connection acquired from a session pool created by another process (its parent)',
+                          {'kind': 'oracle (real OraPool over a pid-stamping fake cx_Oracle.SessionPool)', 'events': small, 'process': p},
+                          observed=o, expected='a connection from a session pool created by process ' + p, key='pool-connect-foreign:oracle:%s' % json.dumps(small))
 
 # ---------------------------------------------------------------------------------------------------------------
 # property oracle on real db_session
@@ -476,6 +584,7 @@ def run(ctx):
     try:
         model_witness(ctx)
         pool_tie(ctx, work)
+        ora_tie(ctx, work)
         n = 0
         for rep in range(ctx.scale(1, 4)):
             for point in ('idle', 'pooled', 'open'):
@@ -511,4 +620,5 @@ if __name__ == '__main__' and len(sys.argv) >= 3 and sys.argv[1] == '--helper':
     _work = sys.argv[2]
     _scripts = json.load(sys.stdin)
     _res = [interp(k, s, os.path.join(_work, 'tie%d.sqlite' % (i % 7))) for i, (k, s) in enumerate(_scripts)]
+    # (kind 'oracle' ignores the path)
     sys.stdout.write(json.dumps(_res)); sys.stdout.flush()
